@@ -131,6 +131,8 @@ class Program:
                 tree = ast.parse(src, filename=path)
             except SyntaxError as e:
                 raise AnalysisError(f"{rel} does not parse: {e}")
+            from .canon import canonicalise
+            canonicalise(tree)  # one spelling for `x = x + 1` / `x += 1` and for a condition named right in front of its only use
             parsed.append(Module(n[:-3], rel, path, src, tree, lines=src.splitlines()))
         # private functions that were merely renamed get their known names back (sa/anchors.py)
         from .anchors import normalise
